@@ -293,11 +293,22 @@ def bus_oracle(tr):
     bad = []
     tk = Tracker()
     rules = {}          # cid -> list of (text, parsed or None)
+    fdcap = {}          # cid -> descriptor passing negotiated
+    from .. import buscheck
     for i, (per, closed) in enumerate(tr.steps):
         tk.before(i, tr)
         op = tr.ops[i]
         sent = tr.sent(i) if op[0] == "send" else None
         actor = op[1] if op[0] == "send" else None
+        nfds = 0
+        if op[0] == "connect":
+            fdcap[op[1]] = bool(op[3])
+        if op[0] == "fdsend" and not op[4]:
+            # a message sent together with descriptors (whole, in one write): judged like any other broadcast, except that a connection
+            # that cannot take descriptors is passed over
+            dec = buscheck.decode_sent([op[2]])[0]
+            if dec and fld(dec, "fds") not in (None, "-") and int(fld(dec, "fds")) == len(op[3]) and fdcap.get(op[1]):
+                sent, actor, nfds = dec, op[1], len(op[3])
         if sent and actor in tk.names and fld(sent, "t") == "4" and fld(sent, "dest") == "-" and \
                 hexname(fld(sent, "iface")) != "org.freedesktop.DBus.Peer":
             me = tk.names[actor]
@@ -305,7 +316,8 @@ def bus_oracle(tr):
                 rs = rules.get(cid, [])
                 if cid not in tk.names or any(p is None for _, p in rs):
                     continue            # a rule the simple matcher cannot judge
-                want = any(rule_matches(p, sent, lambda n: n == me or tk.primary(n) == actor, lambda n: False) for _, p in rs)
+                want = any(rule_matches(p, sent, lambda n: n == me or tk.primary(n) == actor, lambda n: False) for _, p in rs) and \
+                    not (nfds and not fdcap.get(cid))
                 got = len([l for l in per.get(cid, []) if hexname(fld(l, "sender")) == me and fld(l, "ser") == fld(sent, "ser") and fld(l, "t") == "4"])
                 if got != (1 if want else 0):
                     bad.append((None, "step %d: broadcast %s.%s from %s: connection %d with rules %s got %d copies" %
@@ -357,11 +369,32 @@ def queued_sender_scripts():
     return out
 
 
+def fd_broadcast_scripts():
+    """a broadcast that carries a descriptor: a subscriber that cannot take descriptors is passed over - it alone; the subscribers after it in
+    the bus's list get the signal like those before it"""
+    from ..bus import method_call, signal_msg, BUS, BUS_PATH
+    hello = lambda: method_call(1, BUS, BUS_PATH, BUS, "Hello").marshal()
+    add = lambda s, r: method_call(s, BUS, BUS_PATH, BUS, "AddMatch", "s", [r]).marshal()
+    def sig(serial, k, member="WithFd"):
+        m = signal_msg(serial, "/a", "a.b", member, "s", [b"x"])
+        if k: m.fields.append((9, ('b', 'u'), k))
+        return m.marshal()
+    out = []
+    for order in ((True, False, True), (False, True, True), (True, True, False), (False, False, True)):
+        ops = [("connect", 0, 0, True), ("send", 0, hello())]
+        for i, fd in enumerate(order):
+            ops += [("connect", i + 1, 0, fd), ("send", i + 1, hello()), ("send", i + 1, add(2, b"type='signal',interface='a.b'"))]
+        ops += [("fdsend", 0, sig(5, 1), [1], 0), ("send", 0, sig(6, 0, "Plain")), ("fdsend", 0, sig(7, 2, "TwoFds"), [2, 3], 0)]
+        out.append(ops)
+    return out
+
+
 def run_bus(ctx):
     from .. import buscheck
     check.lean_obligations(ctx, MODULE_BUS, THEOREMS_BUS)
     n = 50 if ctx.quick() else 1200
     buscheck.run_histories(ctx, 0, 0, bus_oracle, seed_salt=49, label="rules-naming-queued-names", scripts=queued_sender_scripts())
+    buscheck.run_histories(ctx, 0, 0, bus_oracle, seed_salt=48, label="broadcasts-carrying-descriptors", scripts=fd_broadcast_scripts())
     buscheck.run_histories(ctx, n, 90 if ctx.quick() else 140, bus_oracle,
                            gen_kw={"weights": W_BUS, "max_conns": 5, "rule_uniques": False}, label="broadcast-delivery")
     buscheck.run_histories(ctx, n // 2, 170 if ctx.quick() else 240, bus_oracle,
